@@ -39,15 +39,15 @@ type directive struct {
 }
 
 type dirCase struct {
-	Masters    int         `json:"masters"`
-	Conns      int         `json:"conns"`
-	Requests   int         `json:"requests"` // per connection, pipelined
-	MultiKey   bool        `json:"multi_key"`
-	Migrating  bool        `json:"migrating"` // the keys' slots are half-migrated: requests are redirected by ASK (ASKING+command pairs)
+	Masters   int  `json:"masters"`
+	Conns     int  `json:"conns"`
+	Requests  int  `json:"requests"` // per connection, pipelined
+	MultiKey  bool `json:"multi_key"`
+	Migrating bool `json:"migrating"` // the keys' slots are half-migrated: requests are redirected by ASK (ASKING+command pairs)
 	// Compression: enabled with a threshold no value reaches; every third request is an APPEND, which the backend-side filter
 	// stops (answers with an error, writes nothing): the writer's "request answered by a filter" path runs under the faults too
-	Compression bool `json:"compression,omitempty"`
-	Directives []directive `json:"directives"`
+	Compression bool        `json:"compression,omitempty"`
+	Directives  []directive `json:"directives"`
 }
 
 var points = []string{
